@@ -163,6 +163,9 @@ func (p *plan) describe() []string {
 			for _, b := range c.bufs {
 				bs = append(bs, b.String())
 			}
+			if c.dual {
+				out = append(out, fmt.Sprintf("  plan %s: SECOND WRITER TASK on the same connection: writes=%v pauses=%v (payload keyed per write)", chanID(s, d), c.writes2, c.pauses2))
+			}
 			out = append(out, fmt.Sprintf("  plan %s: writes=%v pauses=%v total=%d | read bufs cycle=[%s] deadline=%v retries=%d start-delay=%v postEOF=%d",
 				chanID(s, d), c.writes, c.pauses, c.total, strings.Join(bs, " "), c.deadline, c.retries, c.startDelay, c.postEOF))
 		}
@@ -268,10 +271,9 @@ func genSac(g simrt.Gen, p *plan) {
 	}
 }
 
-func genChan(g simrt.Gen, p *plan, small bool, budget *int) chanPlan {
-	var c chanPlan
+func genWrites(g simrt.Gen, p *plan, small bool, budget *int, nw int) []int {
 	stream := !isConnLayer(p.layer)
-	nw := []int{1, 2, 3, 0, 4, 5}[g.Weighted(3, 3, 2, 1, 1, 1)]
+	var out []int
 	for i := 0; i < nw; i++ {
 		var sz int
 		cls := g.Weighted(4, 1, 2, 3, 3, 2, 2, 1, 1, 2)
@@ -313,7 +315,16 @@ func genChan(g simrt.Gen, p *plan, small bool, budget *int) chanPlan {
 			sz = 1 + g.Int(32)
 		}
 		*budget -= sz
-		c.writes = append(c.writes, sz)
+		out = append(out, sz)
+	}
+	return out
+}
+
+func genChan(g simrt.Gen, p *plan, small bool, budget *int) chanPlan {
+	var c chanPlan
+	c.writes = genWrites(g, p, small, budget, []int{1, 2, 3, 0, 4, 5}[g.Weighted(3, 3, 2, 1, 1, 1)])
+	nw := len(c.writes)
+	for _, sz := range c.writes {
 		c.total += sz
 	}
 	c.pauses = make([]time.Duration, nw+1)
@@ -333,6 +344,23 @@ func genChan(g simrt.Gen, p *plan, small bool, budget *int) chanPlan {
 	if p.stratum == stTiming || p.stratum == stPeerClose {
 		c.startDelay = []time.Duration{0, 0, 2 * time.Second, 5 * time.Second}[g.Int(4)]
 	}
+	// Two writer tasks on ONE bare secured connection (net.Conn: "Multiple goroutines may invoke methods on a Conn
+	// simultaneously"): the second writer has its own list of writes. No reader deadlines here: the order of the
+	// writes, hence the frame boundaries the deadline observation needs, is not known in advance.
+	if isConnLayer(p.layer) && p.stratum != stStall && g.Chance(1, 3) {
+		c.dual = true
+		c.writes2 = genWrites(g, p, small, budget, 1+g.Int(3))
+		c.pauses2 = make([]time.Duration, len(c.writes2)+1)
+		for _, sz := range c.writes2 {
+			c.total += sz
+		}
+		if p.stratum == stTiming {
+			for i := range c.pauses2 {
+				c.pauses2[i] = writePause[g.Int(len(writePause))]
+			}
+		}
+		c.deadline, c.retries = 0, 0
+	}
 	// notional Noise frames of the planned writes
 	end := 0
 	for _, w := range c.writes {
@@ -349,13 +377,18 @@ func genChan(g simrt.Gen, p *plan, small bool, budget *int) chanPlan {
 		// edge pattern: one read that leaves j bytes of the pending frame, then tiny reads across the edge
 		j := g.Int(4)
 		c.bufs = append(c.bufs, bufSpec{rel: true, v: -16 - j, slack: slack()})
+		if g.Chance(1, 3) {
+			c.bufs = append(c.bufs, bufSpec{v: 0, slack: slack()}) // a zero-length Read while the rest of the frame is queued
+		}
 		for m := 1 + g.Int(6); m > 0; m-- {
 			c.bufs = append(c.bufs, bufSpec{v: 1 + g.Int(2), slack: slack()})
 		}
 	} else {
 		for m := 1 + g.Int(5); m > 0; m-- {
 			var b bufSpec
-			switch g.Weighted(3, 2, 2, 4, 2, 1, 2) {
+			switch g.Weighted(3, 2, 2, 4, 2, 1, 2, 2) {
+			case 7:
+				b.v = 0 // zero-length buffer: must return 0 and change nothing
 			case 0:
 				b.v = 4096
 			case 1:
@@ -375,6 +408,15 @@ func genChan(g simrt.Gen, p *plan, small bool, budget *int) chanPlan {
 			b.slack = slack()
 			c.bufs = append(c.bufs, b)
 		}
+	}
+	nonzero := false
+	for _, b := range c.bufs {
+		if b.rel || b.v > 0 {
+			nonzero = true
+		}
+	}
+	if !nonzero {
+		c.bufs = append(c.bufs, bufSpec{v: 4096})
 	}
 	c.postEOF = 1 + g.Int(3)
 	return c
